@@ -32,14 +32,14 @@ def prefix_head(pl, k, Q):
     return pm - hm
 
 
-def snapshot(pl):
+def snapshot(pl, bind=True):
     from DHLLDV.PipeObj import Pipe
     secs = []
     for s in pl.pipesections:
         if isinstance(s, Pipe):
             secs.append(('pipe', id(s), s.name, s.diameter, s.length, s.total_K, s.elev_change))
         else:
-            secs.append(('pump', id(s), s.name, s.current_speed, s.current_impeller, s.max_driver_speed, s.limited, s.avail_power, id(s.slurry)))
+            secs.append(('pump', id(s), s.name, s.current_speed, s.current_impeller, s.max_driver_speed, s.limited, s.avail_power, id(s.slurry) if bind else None))
     sl = pl.slurry
     return (tuple(secs), id(sl), (sl.Dp, sl.D50, sl.Cv, sl.rhos, sl.fluid, sl.epsilon, sl.max_index), sorted(sl.GSD.items()),
             tuple(sorted((d, id(s), s.Dp, s.Cv, s.D50) for d, s in pl.slurries.items())))
@@ -107,11 +107,11 @@ def correspondence(ctx):
         ctx.sample({'pipeline': G.describe(metas[0][0]), 'Q': metas[0][1]})
 
 
-def check_line(ctx, pl, Q_arg, Q_eff, desc):
+def check_line(ctx, pl, Q_arg, Q_eff, desc, bind=True):
     from DHLLDV.PipeObj import Pipe
-    before = snapshot(pl)
+    before = snapshot(pl, bind)
     locs, heads, elevs = pl.hydraulic_gradient(Q_arg)
-    after = snapshot(pl)
+    after = snapshot(pl, bind)
     ctx.count('evaluations')
     inp = {'pipeline': desc, 'Q': Q_arg}
     if before != after:
@@ -176,6 +176,20 @@ def monitor(ctx, extended=False):
                     del pl.pipesections[-2]
                 desc2 = dict(G.describe(pl), history=f'grade line at Q, then direct edit ({kind}), then grade line at the same Q')
                 check_line(ctx, pl, Q, Q, desc2)
+                k += 1
+            pumps_ = [x for x in pl.pipesections if not isinstance(x, Pipe)]
+            if pumps_ and hasattr(pl.slurry, '_params') and ctx.rng.random() < 0.5:
+                # history: the SAME pump objects are also part of a second pipeline that carries another slurry (the viewer's set-ups share the pumps of
+                # ExamplePumps; a water reference line built around the pumps of a slurry line): the grade line of this pipeline is still its own
+                from DHLLDV.PipeObj import Pipeline
+                p2 = dict(pl.slurry._params)
+                p2['Cv'] = 0.03 if pl.slurry.Cv > 0.2 else 0.4
+                d_ = pl.pipesections[-1].diameter
+                other = Pipeline(name='second line', pipe_list=[Pipe('Entrance', d_, 0.0, 0.5, -3.0)] + pumps_ + [Pipe('discharge', d_, 400.0, 1.0, 2.0)],
+                                 slurry=E.make_slurry(dict(p2, Dp=d_), max_index=100))
+                other.calc_system_head(Q)
+                check_line(ctx, pl, Q, Q, dict(G.describe(pl), history='a second pipeline with another slurry (Cv %r) was built around the same pump objects and evaluated' % p2['Cv']),
+                           bind=False)
                 k += 1
             if ctx.rng.random() < 0.4:
                 # history on the non-positive-flow convention: grade line at Q <= 0, a section edited in place, grade line at Q <= 0 again - each evaluated at the
